@@ -54,6 +54,13 @@ package scen
 // applies to them unchanged. A failed bootstrap dial is not a dial "during a
 // lookup" and creates no obligation.
 //
+// Unresponsive members (rt-manual-refresh variant only, c12_dead.go): a peer may
+// stop answering DHT requests for good while its transport stays up (it may
+// remain connected). Rule refresh-probe-skipped-unresponsive-member encodes
+// "a member that fails the liveness probe of a refresh is removed" for such
+// members: a refresh that probes one member must also probe (and so remove)
+// an unresponsive member whose latest proof is not later — see that file.
+//
 // crypto/rand: the refresh manager draws its per-bucket keys from
 // crypto/rand (kbucket.GenRandPeerID). The keys decide which members a refresh
 // lookup asks first, so normalising park labels would not be enough; the
@@ -99,6 +106,8 @@ func init() {
 			"probe_refresh_answered_during_close", "probe_filter_rejected_proven", "probe_refresh_batched", "probe_refresh_after_close", "probe_proven_not_admitted", "probe_zero_peer_reply",
 			// c12_value.go: value lookups, incorrect answers, configured bootstrap peers
 			"probe_value_lookup_started", "probe_value_record_reply", "probe_corrective_put", "fault_wrong_key_record", "probe_evict_wrong_key_record", "probe_wrong_key_record_nonmember_kept_out",
+			// c12_dead.go: unresponsive members and the refresh's liveness probe
+			"fault_peer_unresponsive", "probe_refresh_cycle_judged", "probe_overdue_unresponsive_member_at_refresh", "probe_overdue_unresponsive_member_handled",
 			"probe_bootstrap_configured", "probe_bootstrap_dial", "fault_bootstrap_dial_fail", "probe_bootstrap_connected_unproven", "probe_bootstrap_peer_already_connected",
 		}
 		return sc
@@ -197,6 +206,8 @@ type c12Peer struct {
 	// peer reported it without the DHT protocol
 	withdrawn bool
 
+	life c12Life // c12_dead.go: unresponsiveness, bounds of its latest proof
+
 	proofTick  int    // observation tick at which its latest valid proof counts (0: none)
 	proofKind  string // seed | probe | lookup
 	absentTick int    // latest observation at which it was not a member
@@ -292,6 +303,10 @@ type c12World struct {
 	obl     []c12Obl
 	closing bool
 	closeOp *Op
+
+	// c12_dead.go
+	cyc       *c12Cycle
+	stepStart time.Duration
 }
 
 func genC12Cfg(s *sim.Sim, variant int) c12Cfg {
@@ -355,6 +370,7 @@ func newC12World(s *sim.Sim, cfg c12Cfg) (*c12World, error) {
 		}
 		w.anchor = a
 	}
+	w.drawUnresponsive()
 
 	w.host = simhost.New(s, w.self, w.u.Self.Addrs, w.u.Name)
 	var err error
@@ -526,6 +542,7 @@ func (w *c12World) observe() {
 				if c.ping {
 					s.Count("obs_liveness_probe_classified")
 				}
+				w.noteOwnProbe(c.to, c.ping)
 			case !c.probeKey && c.tag != "":
 				if lk := w.lookupByTag(c.tag); lk != nil && lk.searchPending[c.to] {
 					c.search = true
@@ -582,6 +599,9 @@ func (w *c12World) observe() {
 			s.Violate("member-unproven", "%s is a member, but since it was last seen outside the table (observation %d) it has not correctly answered a lookup query nor an admission probe sent while it advertised the protocol and passed the filter (latest proof: %s at %d; advertises now=%v denied=%v)",
 				w.name(id), pm.absentTick, pm.proofKind, pm.proofTick, w.advertises(id), pm.denied)
 		}
+		if !w.prev[id] {
+			w.noteAdmission(pm)
+		}
 		if !w.prev[id] && w.tick > 1 {
 			s.Count("probe_admit_via_" + pm.proofKind)
 			if pm.proofKind == "probe" && pm.proofTick == w.tick && pm.withdrawn && !w.advertises(id) {
@@ -611,6 +631,7 @@ func (w *c12World) observe() {
 		s.Tracef("rt [%s] parked [%s]", strings.Join(members, ","), strings.Join(pk, " "))
 		s.State("rt=%d parked=%d lk=%d rf=%d", len(members), len(w.calls), len(w.lookups), len(w.refreshes))
 	}
+	w.judgeCycle(now)
 	w.prev = now
 }
 
@@ -686,6 +707,10 @@ func (w *c12World) releaseAction(p *sim.Parked, observeCancel bool) sim.Action {
 		// (no other call of the cycle is parked) see lastCycleCall.
 		mustOK := w.anchor != nil && c.to == w.anchor.p.ID
 		mustFail := false
+		unresponsive := false
+		if pm := w.byID[c.to]; pm != nil && pm.life.dead && p.Kind == "rpc" && !mustOK {
+			unresponsive, mustFail = true, true // c12_dead.go: answers nothing
+		}
 		if w.lastCycleCall(p) {
 			member, queued := w.prev[c.to], w.pendingRefreshes() >= 2
 			switch {
@@ -771,13 +796,14 @@ func (w *c12World) releaseAction(p *sim.Parked, observeCancel bool) sim.Action {
 			isGet := r.Req.GetType() == pb.Message_GET_VALUE
 			if fails("rpc-fail") {
 				var ferr error
-				if isGet && s.Chance("wrong-key-record", 1, 2) {
+				if isGet && !unresponsive && s.Chance("wrong-key-record", 1, 2) {
 					// an incorrect answer instead of an error: same consequences
 					s.Count("fault_wrong_key_record")
 					wrongKey = true
 					ferr = errors.New("the reply carried a record filed under another key")
 					s.Tracef("  incorrect answer: record under another key")
 					s.Release(p, simnet.Reply{Msg: w.wrongKeyReply(c.to, r.Req)})
+					w.noteReply(c.to)
 					if live && c.search && !w.prev[c.to] {
 						w.keptOut(c.to, "probe_wrong_key_record_nonmember_kept_out")
 					}
@@ -808,6 +834,7 @@ func (w *c12World) releaseAction(p *sim.Parked, observeCancel bool) sim.Action {
 					s.Count("probe_corrective_put")
 				}
 				s.Release(p, simnet.Reply{Msg: reply})
+				w.noteReply(c.to)
 				if c.search && w.anchor != nil && c.to == w.anchor.p.ID {
 					w.anchorFresh = s.Now()
 				}
@@ -863,7 +890,9 @@ func (w *c12World) parkedCalls() []*sim.Parked {
 func (w *c12World) releaseActions() []sim.Action {
 	var acts []sim.Action
 	for _, p := range w.parkedCalls() {
-		acts = append(acts, w.releaseAction(p, false))
+		if !w.hungCall(p) { // c12_dead.go: a hung peer never answers; the call ends with its context
+			acts = append(acts, w.releaseAction(p, false))
+		}
 		if p.Cancelled() {
 			// A liveness probe that times out evicts; the anchor is never evicted,
 			// so its own-activity calls are answered even after their deadline.
@@ -978,6 +1007,7 @@ func (w *c12World) envActions(pm *c12Peer) []sim.Action {
 	if pm == w.anchor {
 		return acts // the anchor is never reported without the protocol
 	}
+	acts = append(acts, w.deadAction(pm)...)
 	if w.connected(id) {
 		// identification of a connected peer: it does / does not speak the DHT protocol
 		acts = append(acts, sim.Action{ID: "env:ident+:" + n, Do: func() {
@@ -1128,13 +1158,15 @@ func (w *c12World) refreshActions() []sim.Action {
 			if busy {
 				s.Count("probe_refresh_batched")
 			}
-			w.requestRefresh(false)
+			n := w.pendingRefreshes()
+			w.openCycle(w.requestRefresh(false), n)
 		}})
 		acts = append(acts, sim.Action{ID: "refresh:force", Do: func() {
 			if busy {
 				s.Count("probe_refresh_batched")
 			}
-			w.requestRefresh(true)
+			n := w.pendingRefreshes()
+			w.openCycle(w.requestRefresh(true), n)
 		}})
 	}
 	if s.Steps >= w.cfg.CloseAfter {
@@ -1198,6 +1230,7 @@ func (w *c12World) startClose() {
 
 func (w *c12World) step() {
 	s := w.s
+	w.stepStart = s.Now()
 	rel := w.releaseActions()
 	var acts []sim.Action
 	label := "next"
